@@ -15,6 +15,7 @@ import warnings
 import numpy as np
 
 from ..core import sut
+from . import values as _values
 from .values import dec_index, dec_operand, dec_number, index_vars, operand_vars, norm
 
 nps = sut.load()
@@ -107,7 +108,11 @@ def _f_new_rows(st, env):
 
 
 def _f_new_flat(st, env):
-    return RaggedArray(np.array([dec_number(x) for x in st["flat"]], dtype=st["dtype"]), list(st["lengths"]))
+    flat = np.array([dec_number(x) for x in st["flat"]], dtype=st["dtype"])
+    if st.get("via") == "frombuffer":
+        # the flat data is a numpy array over a foreign buffer object (bytearray): its .base is not an ndarray
+        flat = np.frombuffer(bytearray(flat.tobytes()), dtype=st["dtype"])
+    return RaggedArray(flat, list(st["lengths"]))
 
 
 def _f_new_like(st, env):
@@ -312,6 +317,16 @@ def _norm_result(r):
     return norm(r)
 
 
+def _args_modified(track):
+    for arr, snap in track:
+        try:
+            if arr.shape != snap.shape or not np.array_equal(arr, snap, equal_nan=arr.dtype.kind == "f"):
+                return True
+        except Exception:
+            return True
+    return False
+
+
 class Execution:
     def __init__(self, width="int64", probe=None):
         self.env = {}
@@ -355,12 +370,20 @@ class Execution:
             if v not in self.env:
                 return ["skipped"]
         self._last_raw = None
+        _values.TRACK = track = []
         try:
             r = OPS[st["op"]](st, self.env)
         except HarnessError:
             raise
         except Exception as e:  # the library refused or failed: an observable outcome
-            return ["raised", type(e).__name__]
+            return ["raised", type(e).__name__] if not _args_modified(track) else \
+                ["raised", type(e).__name__, "AN ARGUMENT ARRAY OF THE CALLER WAS MODIFIED"]
+        finally:
+            _values.TRACK = None
+        if _args_modified(track):
+            # the call changed an index array / mask / value array that the caller passed in
+            self._count("caller_argument_modified")
+            return ["ok", ["AN ARGUMENT ARRAY OF THE CALLER WAS MODIFIED", _norm_result(r) if not isinstance(r, RaggedArray) else "ra"]]
         self._last_raw = r
         if bind:
             dsts = step_dsts(st)
@@ -595,7 +618,7 @@ def run(program, schedule=None, width="int64", probe=None):
 def first_divergence(a, b):
     """Compare two executions' histories. Only raised/returned is compared for failing steps."""
     for i, (x, y) in enumerate(zip(a.out, b.out)):
-        if x[0] != y[0]:
+        if x[0] != y[0] or (x[0] == "raised" and (len(x) > 2) != (len(y) > 2)):
             return {"where": "step", "step": i, "a": x, "b": y}
         if x[0] == "ok" and x[1] != y[1]:
             return {"where": "step", "step": i, "a": x, "b": y}
